@@ -10,7 +10,7 @@ Parts
   duration-factory  every from_<unit>(n) (int and exactly representable float n) over the unit-count alphabet
   duration-pairs    all ordered pairs of the alphabet: + - comparisons min/max ratio        (BFS level 1)
   duration-closure  results that are new values re-enter: accessors + ops against the core alphabet (levels 2..D)
-  instant           unix conversions (floor), +/- Duration, Instant - Instant, plus_*, from_utc, safe +/- at the ends
+  instant           aware datetime -> Instant incl. sub-second utc offsets; unix conversions (floor), +/- Duration, Instant - Instant, plus_*, from_utc, safe +/- at the ends
   offset            all 129 601 offsets: accessors/negation; from_<unit> truncation and range; + and - with range
 """
 from __future__ import annotations
@@ -703,6 +703,28 @@ def w_inst_misc(_):
             for f in kwf(acc, "Instant.from_utc", y, mo, d, h, mi, s):
                 expect_inst(acc, f, True, exact, "C03/instant/from_utc", "y=%d,keyword" % y, {"kind": "inst-from-utc", "args": [y, mo, d, h, mi, s]})
             acc.count(states=1)
+    # aware datetime -> Instant (exact: local microseconds minus the utc offset INCLUDING its sub-second part) and back when in range
+    utc = _dt.timezone.utc
+    offs = [(0, 0), (1, 0), (-1, 0), (M.OFF_MAX_S, 0), (M.OFF_MIN_S, 0), (86399, 999_999), (-86399, -999_999), (0, 1), (0, -1), (0, 999_999), (0, -999_999),
+            (3600, 250_000), (-3600, -250_000), (1172, 130_000), (-1172, -130_000), (19800, 0)]
+    for local in (_dt.datetime(1970, 1, 1), _dt.datetime(1, 1, 1), _dt.datetime(1, 1, 2, 0, 0, 0, 1), _dt.datetime(2000, 2, 29, 12, 34, 56, 789_012),
+                  _dt.datetime(9999, 12, 31, 23, 59, 59, 999_999), _dt.datetime(1969, 12, 31, 23, 59, 59, 999_999)):
+        loc_us = (local - _dt.datetime(1970, 1, 1)) // _dt.timedelta(microseconds=1)
+        for so, uo in offs:
+            a = local.replace(tzinfo=_dt.timezone(_dt.timedelta(seconds=so, microseconds=uo)))
+            exact = (loc_us - (so * 10 ** 6 + uo)) * 1000
+            case = {"kind": "inst-from-aware", "local_us": loc_us, "off_s": so, "off_us": uo}
+            cls = "%s,off=%s%s" % (iclass(exact) if M.in_inst(exact) else "beyond-range", sgn(so * 10 ** 6 + uo), ",sub-second" if uo else "")
+            i = expect_inst(acc, lambda: Instant.from_aware_datetime(a), M.in_inst(exact), exact, "C03/instant/from_aware_datetime", cls, case)
+            acc.count(states=1, nontrivial=1 if uo or not M.in_inst(exact) else 0)
+            if i is not None and exact >= M.BCL_EPOCH_DAYS * NSD:
+                acc.count(transitions=1, evaluations=1)
+                try:
+                    back = i.to_datetime_utc()
+                    if back != a or back.utcoffset() != _dt.timedelta(0) or back.replace(tzinfo=None) != _dt.datetime(1970, 1, 1) + _dt.timedelta(microseconds=exact // 1000):
+                        acc.violation("C03/instant/to_datetime_utc/%s" % cls, "Instant.from_aware_datetime(%s).to_datetime_utc() is %s" % (a, back), case)
+                except Exception as e:  # noqa: BLE001
+                    acc.lib_exception("C03/instant/to_datetime_utc", e, case)
     acc.count(evaluations=2)
     if inst_ns(acc, Instant.min_value) != M.INST_MIN_NS or inst_ns(acc, Instant.max_value) != M.INST_MAX_NS:
         acc.violation("C03/instant/range-ends", "Instant.min_value/max_value differ from -9998-01-01T00:00 / 9999-12-31T23:59:59.999999999", None)
@@ -964,7 +986,7 @@ def replay(rec):
         durs = [case["d"]] if "d" in case else [0, 1, -1]
         offs = [case["o"]] if "o" in case else [0, M.OFF_MAX_S, M.OFF_MIN_S]
         guarded(acc, "C03/instant/value", case, check_instant_value, case["ns"], durs, offs)
-    elif k in ("inst-from-unix", "inst-from-utc"):
+    elif k in ("inst-from-unix", "inst-from-utc", "inst-from-aware"):
         acc.merge(w_inst_misc(0)[0])
     elif k and k.startswith("off-"):
         acc.merge(w_off_misc(off_alphabet())[0])
